@@ -76,7 +76,7 @@ CHECKS = {
         engine="idxsim",
         technique=TECH + "operation sequences on IndexClassifierWrapper, lock-stepped with an executable reference model (multisets of (index, label, weight) triples + retraining a fresh clone); speed-up on/off twin",
         text="Seeded operation sequences (construction with un-/pre-fitted classifier and base, full and partial precompute announcements, fit, partial_fit from the current or the stored base model, base updates, predictions; label and weight overrides, repeated indices) under all flag combinations are executed on the real wrapper and on a small reference model that keeps the implied multiset of (sample, label, weight) triples (for native partial_fit: the ordered call log). After every prediction the wrapper must agree with a fresh clone of the wrapped classifier trained from scratch on that multiset; state refusals (not fitted, base not set, unknown provenance) must occur exactly when the model predicts them and must leave the wrapper unchanged; for the Parzen window classifier the same sequence with use_speed_up toggled must predict alike (a prediction needing kernel entries that were never announced may only fail with the documented ValueError).",
-        note="Probabilities to 1e-9 relative; hard predictions only where the top-two margin exceeds it and the wrapped classifier is not in its random fall-back state. Argument-validation refusals (duplicate indices under enforce_unique_samples) end a run; mixed weighted/unweighted calls are not generated (invalid).",
+        note="Probabilities to 1e-9 relative; hard predictions only where the top-two margin exceeds it and the wrapped classifier is not in its random fall-back state. Argument-validation refusals (duplicate indices under enforce_unique_samples) end a run; mixed weighted/unweighted calls are not generated (invalid). A fifth of the runs uses string class names with missing_label=None.",
         design="4/C19",
     ),
     "C20": dict(
@@ -90,7 +90,7 @@ CHECKS = {
         engine="crowdsim",
         technique=TECH + "crowd-labelling histories with annotator-availability faults (annotators off-line, pairs blocked, no answer) under all documented argument representations; per-call invariant monitor; line-count fuel for the liveness clause",
         text="A multi-annotator strategy (SingleAnnotatorWrapper around every classification strategy of the pool registry, IntervalEstimationThreshold) is driven through several crowd-labelling cycles on a label matrix that fills up. Per cycle the scheduler decides which annotators are off-line, which pairs are blocked, whether a queried annotator answers, how availability and candidates are expressed (None, index array, boolean matrix, feature rows), the batch size and the annotators-per-sample request. Every call must return within a deterministic step budget; the result must be k = min(batch_size, available pairs) pairwise distinct available pairs; utilities must have the documented shape, be NaN at unavailable and already chosen pairs and a number at the chosen pair; an annotators-per-sample request (integer or per-rank array) must be met for every selected sample but the last where the selected samples offer enough pairs.",
-        note="Availability is what the arguments say (documented table). Strategies that need the position of candidates in X are not given feature-row candidates (documented refusal). Known findings: IntervalEstimationThreshold returns fewer pairs; Badge and Quire as wrapped strategies raise once every offered sample carries some annotator's label.",
+        note="Availability is what the arguments say (documented table). Strategies that need the position of candidates in X are not given feature-row candidates (documented refusal). A share of the runs uses string class names with missing_label=None. Known findings: IntervalEstimationThreshold returns fewer pairs; Badge and Quire as wrapped strategies raise once every offered sample carries some annotator's label; QueryByCommittee and EpistemicUncertaintySampling as wrapped strategies cannot handle string class names.",
         design="4/C07",
     ),
 }
